@@ -335,7 +335,7 @@ def declares_order(ctx):
     ctx.require(found >= 1, "write_variable_declares: emitting loop not found")
 
 
-@rule("C05.attribute-pieces", min_instances=5, props=["C07", "C11", "C20"])
+@rule("C05.attribute-pieces", min_instances=5, props=["C07", "C11", "C20", "C17"])
 def attribute_pieces(ctx):
     """an attribute value that mixes text and ${} becomes the `+`-concatenation, in order, of every non-empty piece: expressions parenthesised and unchanged, every other piece (blank ones included) as its repr"""
     db = ctx.db
@@ -398,7 +398,7 @@ def _dumpname(n):
     return _dump(n)
 
 
-@rule("C05.nested-def-precedence", min_instances=3)
+@rule("C05.nested-def-precedence", min_instances=3, props=["C04"])
 def nested_def_precedence(ctx):
     """a def written inside another def shadows a top-level def of the same name where both are visible: the table of callable defs is built with the nested (closure) defs taking precedence"""
     db = ctx.db
